@@ -918,6 +918,12 @@ pub fn record_of(m: &Message, kind: &'static str) -> Rec {
     let bytes = m.as_bytes();
     let mut regs = vec![];
     let storage = m.storage_header.is_some();
+    // the region map below describes the layout the crate's writer uses today; should the writer
+    // ever lay a message out differently, the map degrades (regions past the end are dropped, fault
+    // placement becomes less precise) but the harness must not fall over: no verdict uses the map
+    if bytes.len() < if storage { 20 } else { 4 } {
+        return Rec { bytes, regs, kind, foreign: false };
+    }
     let htyp = bytes[if storage { 16 } else { 0 }];
     let mut p = header_regions(storage, htyp, &mut regs);
     match &m.payload {
@@ -942,6 +948,8 @@ pub fn record_of(m: &Message, kind: &'static str) -> Rec {
             }
         }
     }
+    let n = bytes.len();
+    regs.retain(|g| g.start < g.end && g.end <= n);
     Rec { bytes, regs, kind, foreign: false }
 }
 
